@@ -138,6 +138,34 @@ pub fn run(args: &[&str]) -> Option<String> {
                 .collect();
             Some(format!("{:?} {}", tok.kind(), ks.join("/")))
         }
+        ["swallowed", h, lo, hi] => {
+            // the first `}` inside [lo, hi) that does not close a node of its own: its parent is an ERROR node or a node
+            // without a `{` among its direct children; answer = the first non-ERROR ancestor of that token
+            let src = unhex(h)?;
+            let (lo, hi): (u32, u32) = (lo.parse().ok()?, hi.parse().ok()?);
+            let p = syntax::parse_module(&src);
+            let root = p.syntax_node();
+            for el in root.descendants_with_tokens() {
+                if let Some(tok) = el.as_token() {
+                    let r = tok.text_range();
+                    if tok.text() != "}" || u32::from(r.start()) < lo || u32::from(r.end()) > hi {
+                        continue;
+                    }
+                    let Some(parent) = tok.parent() else { continue };
+                    let own = parent.children_with_tokens().any(|c| c.as_token().map(|t| t.text() == "{").unwrap_or(false));
+                    let is_error = format!("{:?}", parent.kind()) == "ERROR";
+                    if is_error || !own {
+                        let site = tok
+                            .parent_ancestors()
+                            .map(|n| format!("{:?}", n.kind()))
+                            .find(|k| k != "ERROR")
+                            .unwrap_or_else(|| "none".into());
+                        return Some(format!("{site} {}", u32::from(r.start())));
+                    }
+                }
+            }
+            Some("none".into())
+        }
         ["lex", h] => {
             let src = unhex(h)?;
             let v: Vec<String> = GleamLexer::new(&src)
